@@ -2121,6 +2121,19 @@ static int dfs_copy(vnaproperty_t **destination, const vnaproperty_t *source)
 }
 
 /*
+ * _vnaproperty_free_tree: free a whole tree without allocating
+ *   @rootptr: address of root property pointer
+ *
+ * For the free functions of other modules: vnaproperty_delete(rootptr, ".")
+ * has to parse its expression and so can fail for lack of memory.
+ */
+void _vnaproperty_free_tree(vnaproperty_t **rootptr)
+{
+    vnaproperty_free(*rootptr);
+    *rootptr = NULL;
+}
+
+/*
  * vnaproperty_copy: copy a subtree
  *   @destination: address of node where copy is placed
  *   @source: subtree to copy
